@@ -185,8 +185,18 @@ def d3(ctx, F):
               "BincodeCodec encodes with %s and decodes with %s (same option family)" % (fam.get("enc"), fam.get("dec")))
 
 
+def d4(ctx, F):
+    """the wire composition encode -> batch -> compress / decompress -> unbatch -> decode: the batch step must mirror and be exact
+    (same rules as C05.D5), and the subscriber must apply the inverse pipeline (same rules as C03.D3)"""
+    from . import c05, c03
+    c05.d5(ctx, F)
+    c05.d5_guard_exactness(ctx, F)
+    c03.d3(ctx, F)
+
+
 def run(ctx):
     F = ctx.facts("quick")
     d1(ctx, F)
     d2(ctx, F)
     d3(ctx, F)
+    d4(ctx, F)
